@@ -194,7 +194,11 @@ func (fx *FuncVC) modularCall(fn *ssa.Function, spec *FuncSpec, spkg *PkgInfo, a
 		fx.assume(fx.evalBool(post, en.E, en))
 	}
 	if spec.Trusted {
-		fx.trusted[fx.eng.funcKey(fn)] = true
+		key := fx.eng.funcKey(fn)
+		if len(spec.Unchecked) > 0 {
+			key += " (" + strings.Join(spec.Unchecked, "; ") + ")"
+		}
+		fx.trusted[key] = true
 	}
 	switch len(results) {
 	case 0:
